@@ -554,6 +554,7 @@ fn part_rebuild(k: &Kind, cal: &Calendar, n: i64, f: &F, route: &str, overflow: 
 
 fn part_with(k: &Kind, n: i64, p: &PlainDate, f: &F) -> Outcome {
     let id = k.id;
+    let cal = p.calendar().clone();
     let mut o = Outcome::pass();
     let mut judged = 0;
     let code = MonthCode::from_str(&f.code).ok();
@@ -562,6 +563,19 @@ fn part_with(k: &Kind, n: i64, p: &PlainDate, f: &F) -> Outcome {
         ("monthCode", PartialDate::new().with_month_code(code)),
         ("year", PartialDate::new().with_year(Some(f.y))),
     ];
+    // what the merge of the record with the receiver amounts to (CalendarMergeFields: a `year` in the record replaces the
+    // receiver's era and era year; otherwise the receiver stands in with its era and era year, or with its year where
+    // the calendar has no eras). When `from_partial` of that full record fails in the same way, the refusal is the
+    // `rebuild` part's finding (era tables, default eras, day 0 ...), not `with`'s.
+    let full = |name: &str| partial_for(&cal, f, if name == "year" || f.era.is_none() || f.ey.is_none() { "year+code" } else { "era+code" }, None);
+    let same_as_rebuild = |name: &str, e: &temporal_rs::TemporalError| match full(name).map(|pd| guard(|| PlainDate::from_partial(pd, None))) {
+        Some(Ok(Err(e2))) => e2.kind() == e.kind() && e2.message() == e.message(),
+        _ => false,
+    };
+    let rebuild_moves = |name: &str| match full(name).map(|pd| guard(|| PlainDate::from_partial(pd, None))) {
+        Some(Ok(Ok(q))) => ymd_of(&q).n() != n,
+        _ => false,
+    };
     for (name, pd) in variants {
         if name == "monthCode" && code.is_none() {
             continue;
@@ -571,12 +585,21 @@ fn part_with(k: &Kind, n: i64, p: &PlainDate, f: &F) -> Outcome {
             Ok(Ok(q)) => {
                 judged += 1;
                 if ymd_of(&q).n() != n || q.calendar().identifier() != id {
+                    if rebuild_moves(name) {
+                        // the full record itself rebuilds another date (e.g. ethioaa's year read as an era year): `rebuild`
+                        o.unjudged = true;
+                        return o.class("with-unjudged:full-record-rebuilds-another-date(rebuild-part-finding)");
+                    }
                     return o.fail(format!("C16/with/{id}/{name}/own-field-changes-the-date"), format!("{:?} in {id}", Ymd::from_n(n)), format!("{:?} in {} from {f:?}", ymd_of(&q), q.calendar().identifier()));
                 }
             }
-            // `with` refuses the record in calendars where the fields cannot be completed (era calendars: the era of
-            // the receiver is not carried over; an existing finding of the rebuild part): not judged here
-            Ok(Err(_)) => {}
+            Ok(Err(e)) => {
+                if same_as_rebuild(name, &e) {
+                    o = o.class("with-unjudged:full-record-refused-identically(rebuild-part-finding)");
+                } else {
+                    return o.fail(format!("C16/with/{id}/{name}/refused/{}:{}", kind_name(e.kind()), norm_msg(e.message())), format!("{:?} in {id} (the full record is not refused like this)", Ymd::from_n(n)), err_str(&e));
+                }
+            }
         }
         // the sibling entry point: PlainDateTime::with resolves the date fields in the receiver's calendar too
         let time = PlainTime::try_new(13, 7, 9, 1, 2, 3).expect("time");
@@ -587,15 +610,23 @@ fn part_with(k: &Kind, n: i64, p: &PlainDate, f: &F) -> Outcome {
                 judged += 1;
                 let got = Ymd::new(q.iso_year() as i64, q.iso_month(), q.iso_day());
                 if got.n() != n || q.calendar().identifier() != id || (q.hour(), q.minute(), q.second(), q.nanosecond()) != (13, 7, 9, 3) {
+                    if rebuild_moves(name) {
+                        o.unjudged = true;
+                        return o.class("with-unjudged:full-record-rebuilds-another-date(rebuild-part-finding)");
+                    }
                     return o.fail(format!("C16/with/{id}/{name}/datetime/own-field-changes-the-value"), format!("{:?} 13:07:09.001002003 in {id}", Ymd::from_n(n)), format!("{:?} {}:{}:{} in {} from {f:?}", got, q.hour(), q.minute(), q.second(), q.calendar().identifier()));
                 }
             }
-            Ok(Err(_)) => {}
+            Ok(Err(e)) => {
+                if !same_as_rebuild(name, &e) {
+                    return o.fail(format!("C16/with/{id}/{name}/datetime/refused/{}:{}", kind_name(e.kind()), norm_msg(e.message())), format!("{:?} in {id} (the full record is not refused like this)", Ymd::from_n(n)), err_str(&e));
+                }
+            }
         }
     }
     if judged == 0 {
         o.unjudged = true;
-        return o.class("with-unjudged:record-refused");
+        return o.class("with-unjudged:every-record-refused-like-its-full-record");
     }
     o.class("with-judged")
 }
@@ -614,6 +645,7 @@ fn part_year_month(k: &Kind, cal: &Calendar, n: i64, f: &F) -> Outcome {
         }
         let Some(pd) = partial_for(cal, f, route, None) else { continue };
         // a year-month record has no day
+        let pd_date = pd.clone().with_day(Some(1));
         let pd = pd.with_day(None);
         match guard(|| PlainYearMonth::from_partial(pd, ArithmeticOverflow::Constrain)) {
             Err(pn) => return o.fail(panic_sig(id, n, &pn), "no panic", pn),
@@ -648,12 +680,20 @@ fn part_year_month(k: &Kind, cal: &Calendar, n: i64, f: &F) -> Outcome {
                     Err(pn) => return o.fail(panic_sig(id, n, &pn), "no panic", pn),
                 }
             }
-            Ok(Err(_)) => {}
+            Ok(Err(e)) => {
+                // a refusal is the `rebuild` part's finding when the same record with day 1 is refused in the same way as a
+                // date (era tables, default eras); a record that makes a date must make a year-month
+                match guard(|| PlainDate::from_partial(pd_date, Some(ArithmeticOverflow::Constrain))) {
+                    Ok(Err(e2)) if e2.kind() == e.kind() && e2.message() == e.message() => o = o.class("yearmonth-unjudged:date-record-refused-identically(rebuild-part-finding)"),
+                    Ok(Ok(_)) => return o.fail(format!("C16/yearmonth/{id}/{route}/refused-although-the-date-record-is-accepted/{}:{}", kind_name(e.kind()), norm_msg(e.message())), format!("year {} month code {}", f.y, f.code), err_str(&e)),
+                    _ => o = o.class("yearmonth-unjudged:date-record-refused-differently"),
+                }
+            }
         }
     }
     if judged == 0 {
         o.unjudged = true;
-        return o.class("yearmonth-unjudged:record-refused");
+        return o.class("yearmonth-unjudged:every-record-refused");
     }
     o.class("yearmonth-judged")
 }
